@@ -92,15 +92,19 @@ def dtype_rule(ctx, fi):
                 kw = dict(va.args[2])
                 dt = kw.get('dtype')
                 fixed = (dt is None or not depends_raw(dt, params)) and not (dt is not None and 'complex' in pretty(dt))
-                allocs[e.data['name']] = (e, fixed, dt)
+                dparams = {p for p in params if dt is not None and depends_raw(dt, {p})}
+                allocs[e.data['name']] = (e, fixed, dt, dparams)
             elif e.data['name'] in allocs and e.data.get('aug') is None:
                 del allocs[e.data['name']]
         if e.kind == 'store' and e.data.get('target') == 'sub' and isinstance(e.data.get('base_node'), ast.Name):
             nm = e.data['base_node'].id
             if nm in allocs:
-                al, fixed, dt = allocs[nm]
+                al, fixed, dt, dparams = allocs[nm]
                 v = e.data['rhs'] if e.data.get('aug') else e.data['value']
                 dep = depends_raw(v, params)
+                vparams = {p for p in params if depends_raw(v, {p})}
+                if not fixed and dep and not vparams <= dparams:
+                    fixed = True       # the dtype follows only some of the inputs the stored value is computed from
                 n += 1
                 ctx.ob('DTYPE', f'buffer `{nm}` filled from the input has an input-derived dtype (complex input keeps its '
                                 f'imaginary part)', fi, not (fixed and dep),
